@@ -154,6 +154,8 @@ pub struct Gen<'t, 'd> {
     /// (sorted let-table, second let-table reading it): the main pipeline reads the first, takes a
     /// slice and joins the second, so that one sorted relation has two live readers
     pub main_scaffold: Option<(usize, usize)>,
+    /// step kinds the main pipeline generates next, in order (dropped when one is not admissible)
+    pub forced: Vec<usize>,
     /// the bottom of the last append reads a let-table
     pub append_let_bottom: bool,
     pub force_right_let: Option<usize>,
@@ -272,6 +274,7 @@ impl<'t, 'd> Gen<'t, 'd> {
             n_wild_except: 0,
             dup_append: false,
             main_scaffold: None,
+            forced: vec![],
             append_let_bottom: false,
             force_right_let: None,
             module_scheme: false,
@@ -2148,7 +2151,15 @@ impl<'t, 'd> Gen<'t, 'd> {
                     }
                 }
             }
-            let choice = self.t.weighted(&w);
+            let mut choice = self.t.weighted(&w);
+            if !self.in_sub && !self.forced.is_empty() {
+                let f = self.forced.remove(0);
+                if w[f] > 0 {
+                    choice = f;
+                } else {
+                    self.forced.clear();
+                }
+            }
             if !matches!(choice, 0 | 1 | 2) {
                 self.simple_so_far = false;
             }
@@ -2431,7 +2442,15 @@ impl<'t, 'd> Gen<'t, 'd> {
             self.force_right_let = None;
             steps.extend(js);
         }
+        // a reader of a sorted let-table that sorts again, takes a slice and then groups: the order
+        // inherited from the let-table and the new one are both around when the take is emitted
+        let mut nsteps = nsteps;
+        if scaffold.is_none() && !self.in_sub && use_let && ord.ordered && self.haz("sorted_let") && self.t.chance(1, 3) {
+            self.forced = vec![3, 4, 7];
+            nsteps = nsteps.max(3);
+        }
         let more = self.gen_steps(&mut frame, &mut ord, nsteps, depth);
+        self.forced.clear();
         if self.after_append && !more.is_empty() {
             // anything downstream of a pipeline containing an append may prune its columns
         }
